@@ -24,10 +24,10 @@ func VH_C05_Encrypt() {
 	_, ct, err := e.EncryptMessage(key, msg, usage)
 	conf := zzverif.RandLog()
 	zzverif.Assert("encrypt-ok", err == nil)
-	zzverif.Assert("confounder-is-fresh-random-of-rfc-size", len(conf) == p.conf)
-	want := vhEncrypt(p, key, conf, msg, usage)
+	zzverif.Assert("confounder-is-fresh-random-of-rfc-size", len(conf) >= p.conf)
 	zzverif.Assert("ciphertext-length-per-rfc", len(ct) == vhCipherLen(p, n))
-	zzverif.Assert("library-encryption-equals-rfc", zzverif.EqBytes(ct, want))
+	_, ok := vhConfounderWindow(p, key, conf, msg, usage, ct, -1)
+	zzverif.Assert("library-encryption-equals-rfc", ok)
 	zzverif.Reach("encrypted")
 	// other direction: what the RFC reference encrypts (any confounder), the library decrypts
 	conf2 := zzverif.Bytes(p.conf)
@@ -40,6 +40,48 @@ func VH_C05_Encrypt() {
 	}
 	zzverif.Assert("decrypted-plaintext-equals-message", zzverif.EqBytes(pt, padded))
 	zzverif.Reach("decrypted")
+}
+
+// vhConfounderWindow: the ciphertext is the RFC encryption of msg with a confounder that is one of the first four
+// confounder-sized windows of the random bytes drawn so far (the library as it stands draws exactly one window per
+// call; an implementation that buffers randomness hands out consecutive windows), other than window `not`.
+// Returns the window used.
+func vhConfounderWindow(p vhProfile, key, drawn, msg []byte, usage uint32, ct []byte, not int) (int, bool) {
+	used, ok := -1, false
+	for w := 0; w < 4 && (w+1)*p.conf <= len(drawn); w++ {
+		if w == not {
+			continue
+		}
+		if zzverif.EqBytes(ct, vhEncrypt(p, key, drawn[w*p.conf:(w+1)*p.conf], msg, usage)) {
+			used, ok = w, true
+			break
+		}
+	}
+	return used, ok
+}
+
+// VH_C05_EncryptTwice: a history.  Two encryptions in a row (same key and usage, arbitrary messages): each is the RFC
+// encryption under a confounder taken from the random source, and the second does not reuse the first one's
+// confounder - nor anything else that is not fresh randomness, such as what the first call left in a buffer.
+func VH_C05_EncryptTwice() {
+	et, n := zzverif.Param("etype"), zzverif.Param("n")
+	p := vhProfileOf(et)
+	e, _ := GetEtype(int32(et))
+	key := zzverif.Bytes(p.keyLen)
+	m1, m2 := zzverif.Bytes(n), zzverif.Bytes(n)
+	usage := zzverif.Uint32()
+	zzverif.Assume(usage != 0)
+	_, c1, err := e.EncryptMessage(key, m1, usage)
+	drawn := zzverif.RandLog()
+	zzverif.Assert("encrypt-ok", err == nil)
+	w1, ok := vhConfounderWindow(p, key, drawn, m1, usage, c1, -1)
+	zzverif.Assert("first-encryption-equals-rfc-under-a-drawn-confounder", ok)
+	_, c2, err := e.EncryptMessage(key, m2, usage)
+	drawn = append(drawn, zzverif.RandLog()...)
+	zzverif.Assert("encrypt-ok", err == nil)
+	_, ok = vhConfounderWindow(p, key, drawn, m2, usage, c2, w1)
+	zzverif.Assert("second-encryption-equals-rfc-under-another-drawn-confounder", ok)
+	zzverif.Reach("done")
 }
 
 // VH_C05_PublicAPI: the package-level GetEncryptedData / DecryptMessage agree with the etype methods.
@@ -58,7 +100,8 @@ func VH_C05_PublicAPI() {
 	zzverif.Assert("encrypt-ok", err == nil)
 	zzverif.Assert("encrypted-data-etype", ed.EType == int32(et))
 	zzverif.Assert("encrypted-data-kvno", ed.KVNO == kvno)
-	zzverif.Assert("encrypted-data-cipher-equals-rfc", zzverif.EqBytes(ed.Cipher, vhEncrypt(p, kv, conf, msg, usage)))
+	_, okc := vhConfounderWindow(p, kv, conf, msg, usage, ed.Cipher, -1)
+	zzverif.Assert("encrypted-data-cipher-equals-rfc", okc)
 	pt, err := DecryptMessage(ed.Cipher, vhKey(int32(et), kv), usage)
 	zzverif.Assert("decrypt-ok", err == nil)
 	if p.cipher != "des3" {
@@ -313,7 +356,8 @@ func VH_C06_Sequence() {
 	}
 	_, c3, err := e.EncryptMessage(buf, msg, usage)
 	conf3 := zzverif.RandLog()
-	zzverif.Assert("encrypt-under-new-key-equals-rfc", zzverif.And(err == nil, zzverif.EqBytes(c3, vhEncrypt(p, k2, conf3, msg, usage))))
+	_, ok3 := vhConfounderWindow(p, k2, conf3, msg, usage, c3, -1)
+	zzverif.Assert("encrypt-under-new-key-equals-rfc", zzverif.And(err == nil, ok3))
 	zzverif.Reach("done")
 }
 
